@@ -177,4 +177,10 @@ def copyQuery (id : Int) (win : List Int) (rev : Bool) : OMap :=
 def truePairs (i0 n : Nat) (rev : Bool) : List (Int × Int) :=
   (List.range n).map fun j => (((i0 + 1 + j : Nat) : Int), if rev then ((n - j : Nat) : Int) else ((j + 1 : Nat) : Int))
 
+/-- the records of one query in every file of a run -/
+def restrictOutput (o : Output) (id : Int) : Output :=
+  { main := o.main.filter (fun r => r.queryId = id),
+    extra := o.extra.map fun (x : Nat × List Row) => (x.1, x.2.filter (fun r => r.queryId = id)) }
+
+
 end Coma.Spec
